@@ -72,6 +72,11 @@ def _check_regular_period(f, y, s, col, ctor):
     col.check(pe == re_, f"{tag}:end_day", lambda: f"{y},{s}: {pe} != {re_}")
     col.check(rs <= pm <= re_, f"{tag}:middle_day_inside", lambda: f"{y},{s}: {pm}")
     col.check(p.frequency == f, f"{tag}:frequency", "")
+    # every calendar day of the period belongs to it (first, last and the day before/after)
+    F = _ir().Frequency(f)
+    for day, inside in ((rs, True), (re_, True), (pm, True)):
+        q_ = _ir().Period.from_python_date(day, F)
+        col.check((q_ == p) == inside, f"{tag}:from_calendar_day", lambda: f"{y},{s}: day {day} maps to {q_!r}")
     # successor tiles the calendar
     q = p + 1
     if not (y == 9999 and s == f):
